@@ -17,7 +17,7 @@ Local Open Scope nat_scope.
 
 Local Arguments NYield {C F W} w line it c.
 Local Arguments NDone {C F W} it c.
-Local Arguments NErr {C F W} f c.
+Local Arguments NErr {C F W} f it c.
 Local Arguments NPanic {C F W} site.
 Local Arguments NOOF {C F W}.
 Local Arguments ItNone {DE} st.
@@ -231,7 +231,7 @@ Proof.
   intros fuel n HA st.
   destruct (i_cache st) as [|row rest] eqn:Hc; [|apply HA; rewrite Hc; discriminate].
   intros sn items st' Hcol. rewrite Hc. cbn [remaining flat_map].
-  destruct (snext fuel (i_iter st) (i_ctx st)) as [w l it' c'|it' c'|[x|s] c'|s|] eqn:Hn.
+  destruct (snext fuel (i_iter st) (i_ctx st)) as [w l it' c'|it' c'|[x|s] it' c'|s|] eqn:Hn.
   - rewrite collect_S, (inext_refill fuel st w l it' c' Hc Hn), <- collect_S in Hcol.
     destruct (HA (with_iter_ctx st it' c' [source_row w l]) ltac:(cbn; discriminate) sn _ _ Hcol)
       as (f & sn' & Hl & Hs).
@@ -404,7 +404,7 @@ Proof.
   assert (Hmono : forall r, snext f (i_iter st) (i_ctx st) = r -> r <> NOOF ->
                   forall F, S f <= F -> snext F (i_iter st) (i_ctx st) = r).
   { intros r Hr Hno F HF. unfold Iter.snext in *. eapply next_mono; [exact Hr|exact Hno|lia]. }
-  destruct (snext f (i_iter st) (i_ctx st)) as [w l it' c'|it' c'|[e|s] c'|s|] eqn:Hn.
+  destruct (snext f (i_iter st) (i_ctx st)) as [w l it' c'|it' c'|[e|s] it' c'|s|] eqn:Hn.
   - rewrite (drain_yield _ _ _ _ _ _ _ _ Hn) in Hs.
     pose proof (Inv_refill f st w l it' c' HI Hn) as HI1.
     destruct (HA _ HI1 ltac:(cbn; discriminate) f (h_of st sn (S n)) sn x lg Hs)
@@ -421,7 +421,7 @@ Proof.
     rewrite IterLogProof.get_row_unfold, Hc, (Hmono _ eq_refl ltac:(discriminate) F HF). reflexivity.
   - unfold StmtCorollaries.cdrain in Hs. rewrite drain_S in Hs.
     pose proof Hn as Hn0. unfold Iter.snext in Hn0. rewrite Hn0 in Hs. cbn in Hs.
-    inversion Hs; subst x lg. exists [SErr (IE_Runtime (RT_Expr e))], (with_iter_ctx st (i_iter st) c' []).
+    inversion Hs; subst x lg. exists [SErr (IE_Runtime (RT_Expr e))], (with_iter_ctx st it' c' []).
     split; [reflexivity|]. split; [reflexivity|]. intros F HF.
     rewrite collect_S. unfold Iter.inext.
     rewrite IterLogProof.get_row_unfold, Hc, (Hmono _ eq_refl ltac:(discriminate) F HF). reflexivity.
